@@ -119,7 +119,9 @@ func (f *Func) LLString() string {
 	// Function definition.
 	//
 	//	'define' Header=FuncHeader Metadata=MetadataAttachment* Body=FuncBody
-	if err := f.AssignIDs(); err != nil {
+	// Printing renumbers: IDs cached by an earlier print or by the parser may be
+	// stale after the function has been edited.
+	if err := f.assignIDs(false); err != nil {
 		panic(fmt.Errorf("unable to assign IDs of function %q; %v", f.Ident(), err))
 	}
 	buf := &strings.Builder{}
@@ -149,8 +151,16 @@ func (f *Func) LLString() string {
 	}
 }
 
-// AssignIDs assigns IDs to unnamed local variables.
+// AssignIDs assigns IDs to unnamed local variables. An unnamed local variable
+// which already has a non-zero ID that differs from its position is reported as
+// an error (used by the parser to validate explicit IDs).
 func (f *Func) AssignIDs() error {
+	return f.assignIDs(true)
+}
+
+// assignIDs assigns IDs to unnamed local variables. If validate is false, stale
+// IDs are overwritten instead of reported.
+func (f *Func) assignIDs(validate bool) error {
 	f.mu.Lock()
 	defer f.mu.Unlock()
 	verifTrace("lock", f, 0, 0)
@@ -158,7 +168,7 @@ func (f *Func) AssignIDs() error {
 	id := int64(0)
 	setName := func(n namedVar) error {
 		if n.IsUnnamed() {
-			if n.ID() != 0 && id != n.ID() {
+			if validate && n.ID() != 0 && id != n.ID() {
 				want := id
 				got := n.ID()
 				return errors.Errorf("invalid local ID in function %q, expected %s, got %s", f.Ident(), enc.LocalID(want), enc.LocalID(got))
